@@ -2,7 +2,7 @@
   JV.Spec.Cbor — reference decoder for CBOR (RFC 8949), written from the RFC:
   §3 (initial byte = major type ‖ additional information; argument widths 0/1/2/4/8 bytes, 28–30
   reserved, 31 = indefinite length only for majors 2–5 and the "break" 0xFF only inside indefinite
-  items; indefinite strings are sequences of definite chunks of the same major type), Appendix C
+  items; indefinite strings are sequences of definite chunks of the same major type, each text chunk valid UTF-8 on its own: §3.2.3), Appendix C
   (well-formedness) and §3.4 (tags), followed by the mapping to the jsoncons data model documented in
   doc/ref/cbor/cbor.md (tags 0, 1, 2, 3, 21–23, 32–34; other tags ignored; undefined ↦ null/undefined;
   float32 widened to double; half kept as half).
@@ -92,6 +92,7 @@ def readChunks (major : Nat) : Nat → Bytes → Res Bytes
       | none => .illformed
       | some (n, s1) =>
         if s1.length < n then .illformed
+        else if major = 3 ∧ Rfc8259.validUtf8 (s1.take n) = false then .illformed   -- §3.2.3: every text chunk is itself well-formed UTF-8
         else match readChunks major fuel (s1.drop n) with
           | .ok more rest => .ok (s1.take n ++ more) rest
           | r => r
